@@ -146,4 +146,11 @@ def suite_call(ctx):
     return s
 
 
-SUITES = [suite_call]
+def suite_reentrant(ctx):
+    """the pending-response callback uses the client it belongs to (the documentation suggests sending TesterPresent from it): the request in flight goes on as if the
+    callback had done nothing - harness/reentrant.py, metamorphic against a callback that only counts"""
+    from .. import reentrant
+    return reentrant.suite_reentrant(ctx)
+
+
+SUITES = [suite_call, suite_reentrant]
